@@ -16,7 +16,7 @@ assert s.count(old)>=1, "pattern not found"
 open(p,'w').write(s.replace(old,new,1))
 PY
 shift 4;
-else (cd "$M/repo" && patch -p1 -s < "$1") || exit 3; shift; fi
+else (cd "$M/repo" && patch -p1 -s -F3 < "$1") || exit 3; shift; fi
 [ "$1" = "--" ] && shift
 (cd "$M/repo" && diff -r -q /repo "$M/repo" -x .git | head -5)
 if ! (cd "$M/repo" && go build ./... ); then echo "MUTANT DOES NOT BUILD"; exit 3; fi
